@@ -288,6 +288,7 @@ func runReal(c *core.Ctx, B int) {
 	}
 	runFar(c, B)
 	runStaged(c, B)
+	runScattered(c, B)
 	runManyBlocks(c, B)
 }
 
@@ -518,6 +519,59 @@ func runStaged(c *core.Ctx, B int) {
 	c.Bound(bname(B, "staged.second_sphere_centres"), n)
 }
 
+// runScattered: three small spheres, each added by a call of its own, centred on a half-block lattice
+// over 2x2 blocks and their low neighbours (centres inside a block, on a face, on an edge between four
+// blocks): the storage blocks the canvas ends up with form L shapes, diagonals and rows with holes —
+// sets that no single field (whose blocks form a box) produces — and every sphere is the first one
+// (the owner of storage block 0) once.
+func runScattered(c *core.Ctx, B int) {
+	if B >= 50 {
+		return // block-scaled build only: the real block edge makes every such canvas a multi-second march
+	}
+	cpu, r := 2.0, 0.6 // block edge 6 cells = 3 units
+	var ctrs [][3]float64
+	for _, x := range []float64{0, 1.5, 3, 4.5, 6} {
+		for _, y := range []float64{0, 1.5, 3, 4.5, 6} {
+			ctrs = append(ctrs, [3]float64{x, y, 1.5})
+		}
+	}
+	far := func(a, b [3]float64) bool {
+		sep := 0.0
+		for i := 0; i < 3; i++ {
+			sep = math.Max(sep, math.Abs(a[i]-b[i])-2*r)
+		}
+		return sep >= 2/cpu
+	}
+	n := 0
+	for i := range ctrs {
+		for j := i + 1; j < len(ctrs); j++ {
+			for l := j + 1; l < len(ctrs); l++ {
+				if !far(ctrs[i], ctrs[j]) || !far(ctrs[j], ctrs[l]) || !far(ctrs[i], ctrs[l]) {
+					continue
+				}
+				for rot := 0; rot < 3; rot++ {
+					n++
+					if !c.Next() {
+						continue
+					}
+					if expired(c) {
+						return
+					}
+					ord := [][3]float64{ctrs[i], ctrs[j], ctrs[l]}
+					ord = append(ord[rot:], ord[:rot]...)
+					var parts []Part
+					for _, ct := range ord {
+						parts = append(parts, Part{Kind: "sphere", C: ct, R: r})
+					}
+					cut := cutoffs[n%len(cutoffs)]
+					one(c, Case{Via: "marching", Parts: parts, Strength: 1, CPU: cpu, Cutoff: cut, Entry: "canvas", Block: B, Stage: "separately-unmarched"}, fmt.Sprintf("block%d/scattered-parts", B))
+				}
+			}
+		}
+	}
+	c.Bound(bname(B, "scattered.three_spheres_added_one_by_one"), n)
+}
+
 // expired polls the harness deadline; core only looks at the clock every 256th poll, and one
 // march can take seconds, so poll in bursts.
 func expired(c *core.Ctx) bool {
@@ -554,11 +608,25 @@ func march(cs Case, b builtField) modeling.Mesh {
 		cv.AddField(f)
 		return cv.MarchParallel(cs.Cutoff)
 	}
+	if cs.Stage == "separately-unmarched" {
+		// every part through a call of its own, in the order given: the canvas's set of storage blocks
+		// is whatever the parts touched (not a box), and block 0 is the first part's low corner
+		for _, part := range b.parts {
+			cv.AddField(part)
+		}
+		return cv.March(cs.Cutoff)
+	}
 	if cs.Stage != "" {
 		cv.AddField(b.parts[0])
 		cv.March(cs.Cutoff) // a preview of the canvas so far
 		rest := marching.CombineFields(b.parts[1:]...)
 		switch cs.Stage {
+		case "separately":
+			for _, part := range b.parts[1:] {
+				cv.AddField(part)
+			}
+		case "separately-unmarched":
+			// handled below (no preview march): unreachable here
 		case "AddField":
 			cv.AddField(rest)
 		case "AddFieldParallel":
